@@ -37,7 +37,9 @@ func genC20(seed uint64, idx int, tier string) *Scenario {
 	class := []string{}
 	for s := 0; s < ns; s++ {
 		ip := fmt.Sprintf("10.0.%d.%d", s, 20+s)
-		nc.ARPPeers = append(nc.ARPPeers, ip)
+		if r.Chance(0.75) {
+			nc.ARPPeers = append(nc.ARPPeers, ip)
+		} // else: a scanner the sensor has no ARP entry for (answered through the gateway, or not at all)
 		a := Actor{Kind: "scanner", Name: ip, Src: ip}
 		protos := [][]string{{"tcp"}, {"udp"}, {"icmp"}, {"tcp", "udp"}, {"tcp", "udp", "icmp"}}[r.Intn(5)]
 		nb := 1
@@ -105,6 +107,11 @@ func genC20(seed uint64, idx int, tier string) *Scenario {
 		sc.Faults = []string{"slow-channel"}
 		class = []string{"flood-during-report"}
 		ns = 2
+	}
+	if r.Chance(0.15) {
+		// no usable route: replies to sources without ARP entry cannot be sent - their scans still count
+		nc.GatewayRoute = r.Chance(0.5)
+		nc.GatewayARP = false
 	}
 	nj, _ := json.Marshal(nc)
 	var nm map[string]interface{}
